@@ -72,13 +72,13 @@ class BlockModel:
             if name == "grp_ptr":
                 attrs[name] = Vec([0, 1, 3])
             elif name == "grp_indices":
-                attrs[name] = Vec([0, 1, 2])
+                attrs[name] = Vec([2, 0, 1])      # non-contiguous: group 0 = {2}, the analysed group 1 = {0, 1}
             elif name == "weights":
                 attrs[name] = Vec([sym("wtA"), const(0) if zw else sym("wt")])
             elif name == "weights_groups":
                 attrs[name] = Vec([sym("wgA"), const(0) if zw else sym("wg")])
             elif name == "weights_features":
-                attrs[name] = Vec([sym("wfA"), sym("wf0"), sym("wf1")])
+                attrs[name] = Vec([sym("wf0"), sym("wf1"), sym("wfA")])     # indexed by feature
             elif "bool" in typ:
                 attrs[name] = bool(self.var.get(name, False))
             elif "[" in typ:
@@ -90,7 +90,7 @@ class BlockModel:
     # coefficient containers: the analysed block is group 1 / row 1
     def coef(self, w0, w1):
         if self.group:
-            return Vec([sym("wa"), w0, w1])
+            return Vec([w0, w1, sym("wa")])
         return Mat([Vec([sym("wa0"), sym("wa1")]), Vec([w0, w1])])
 
     def grad(self, g0, g1):
@@ -255,6 +255,8 @@ def r_proxfoc_block(A, ctx, scope, rule="R-PROXFOC-BLOCK", parts=("foc", "zero",
             continue
         if cls.name in BLOCK_NOT_CLAIMED:
             ctx.note(f"{rule}: {cls.name} not claimed: {BLOCK_NOT_CLAIMED[cls.name]}")
+            continue
+        if scope.get("select") is not None and not scope["select"](cls):
             continue
         for var in _variants(A.prog, cls):
             for zw in (False, True):
